@@ -7,6 +7,7 @@ SETUP=$(python3 -c "import json;print(json.load(open('MANIFEST.json'))['setup_cm
 ( eval "$SETUP" ) >/tmp/all_setup.log 2>&1 || { echo "SETUP FAILED"; tail -20 /tmp/all_setup.log; }
 for p in $IDS; do
   s=$(date +%s)
-  out=$(./check $p --tier $TIER 2>&1 | tail -3 | tr '\n' ' ')
-  echo "$p rc=$? wall=$(( $(date +%s) - s ))s :: $out"
+  out=$(./check $p --tier $TIER 2>&1; echo "__rc=$?")
+  rc=${out##*__rc=}; out=$(echo "${out%__rc=*}" | tail -3 | tr '\n' ' ')
+  echo "$p rc=$rc wall=$(( $(date +%s) - s ))s :: $out"
 done
